@@ -22,6 +22,7 @@ typedef struct {
     long budget;           /* number of generated cases wanted for this tier (component scales it) */
     /* distribution statistics, printed as "#stat key value" lines at the end */
     long n_lines;
+    const char* in_path;   /* --in FILE: inputs produced by the Lean side (components with a pregen step) */
 } hctx;
 
 static inline uint64_t h_next(hctx* h) {
